@@ -60,6 +60,13 @@ BOUNDS = {
                                        'heavy atoms over C N O (trees and one ring, bond orders 1-3), every partition, covering renderings: 3 for 2 atoms, 2 for 3 atoms, 1 for 4 atoms',
         'block5_multi_cut': 'ladder molecules with 2, 3, 4 cut bonds between one pair of fragments (single and double rungs), 2 partitions, 4 renderings',
         'block3_library': '43 larger molecules x <= 10 seeded partitions x 2 renderings',
+        'block6_descriptor_behind_branch': 'pos=tail renderings whose text has a descriptor behind `)` (those behind a branch that contains a '
+                                           'branch first): 10 branched molecules with 6-9 heavy atoms x all (<= 6 atoms) or 12 seeded partitions x 2; every '
+                                           '4-atom carbon skeleton and ring probe x every partition x every start atom x asc/desc; 43 library molecules x 3 '
+                                           'seeded partitions x 1  (1657 cases at seed 0, 302 with a descriptor behind a nested branch)',
+        'block7_nh_aromatics': '8 molecules with an aromatic [nH] (pyrrole, 2-methylpyrrole, imidazole, 4-ethylimidazole, 3-ethylindole, '
+                               '2,2\'-bipyrrole, 3-methyl-2-pyridone, histidine), uncut and <= 8 seeded partitions that keep the [nH] ring in one '
+                               'fragment x 4 renderings (100 cases)',
         'block4_base_orders': 'molecules <= 3 heavy atoms over C N O, partitions into 2-3 fragments, every base-graph node '
                               'order, from_string and from_graph',
         'cut_bonds_between_a_pair': '0..4 (3 and 4 in blocks 3 and 5)'},
@@ -70,10 +77,12 @@ BOUNDS = {
         'block3_library': '43 larger molecules x <= 40 seeded partitions x 4 renderings',
         'block4_base_orders': 'molecules <= 4 heavy atoms over C N O, partitions into 2-3 fragments, every base-graph node order, both constructors',
         'block5_multi_cut': 'as quick with 12 renderings',
+        'block6_descriptor_behind_branch': 'as quick with 60 seeded partitions x 12 renderings for the branched molecules, 15 partitions x 4 for the library',
+        'block7_nh_aromatics': 'as quick with <= 40 admissible partitions x 8 renderings',
         'cut_bonds_between_a_pair': '0..4'},
 }
 EXHAUSTIVE = {'quick': False, 'thorough': False}
-RULE = ('molecule x partition into connected fragments x rendering (see BOUNDS); exhaustive blocks do not depend on the seed, '
+RULE = ('molecule x partition into connected fragments x rendering (see BOUNDS; blocks in the order 1, 6, 7, 4, 3, 5, 2); exhaustive blocks do not depend on the seed, '
         'covering renderings and library partitions are drawn from VERIF_SEED.  A case is non-trivial when the molecule is cut '
         '(>= 2 fragments, so at least one descriptor pair has to be matched, a bond created and hydrogens rebuilt across it); '
         'distinct = distinct CGsmiles text (plus node list for from_graph).')
@@ -83,6 +92,8 @@ ASSUMPTIONS = [
     'the fragment SMILES written by gen/g2_molecules.render_fragment denotes the intended fragment (its canonical form was '
     'compared with RDKit for all 2660 molecules <= 4 atoms over C N O Cl [N+] [O-] and the 43 library molecules when it was written)',
     'cgsmiles.read_cgsmiles is used as a precondition filter for the base-graph string only',
+    'block 7: the localised structure of each [nH] molecule is typed in by hand (gen/g2_molecules.NH_AROMATIC_SMILES); that a ring with an '
+    'N-H is returned localised and a benzo ring as 1.5 is CGsmiles\' documented definition of aromaticity (rebuild_h_atoms message, C01 scope)',
     'isomorphism is decided by networkx.is_isomorphic',
 ]
 
